@@ -36,6 +36,10 @@ More information:
 'GR1601101050000010547023795'
 >>> validate('BE31435411161155')
 'BE31435411161155'
+>>> validate('NOU215037577003')  # letters in place of the check digits
+Traceback (most recent call last):
+    ...
+InvalidFormat: ...
 >>> compact('GR16 0110 1050 0000 1054 7023 795')
 'GR1601101050000010547023795'
 >>> format('GR1601101050000010547023795')
@@ -49,7 +53,7 @@ import re
 from stdnum import numdb
 from stdnum.exceptions import *
 from stdnum.iso7064 import mod_97_10
-from stdnum.util import clean, get_cc_module
+from stdnum.util import clean, get_cc_module, isdigits
 
 
 # our open copy of the IBAN database
@@ -100,6 +104,9 @@ def validate(number, check_country=True):
     """Check if the number provided is a valid IBAN. The country-specific
     check can be disabled with the check_country argument."""
     number = compact(number)
+    # the check digits should be digits
+    if not isdigits(number[2:4]):
+        raise InvalidFormat()
     # ensure that checksum is valid
     mod_97_10.validate(number[4:] + number[:4])
     # look up the number
